@@ -226,6 +226,30 @@ def _build_case(run, rng, name, field, flags, ndocs, schema, storage):
             qs.append({"q": aq, "obs": obs, "text": texts[streams[dn][0]] if dn is not None else ""})
         parser = qparser.QueryParser("f", schema)
         null = {"op": "null"}
+        # what is stored with the postings - positions and character ranges of every occurrence - is what the
+        # analyzer produced at index time (also where occurrences of one term overlap, as n-grams do)
+        fmt = getattr(field, "format", None)
+        if fmt is not None and fmt.supports("characters"):
+            bad = []
+            try:
+                want = {}
+                for dn, (k, toks) in streams.items():
+                    for t, pos, sc, ec in toks:
+                        want.setdefault((t, dn), []).append((pos, sc, ec))
+                for t in sorted(set(t for t, _ in want)):
+                    m = rd.postings("f", t)
+                    while m.is_active():
+                        got = [tuple(int(x) for x in c) for c in m.value_as("characters")]
+                        if got != want.get((t, m.id()), []):
+                            bad.append((t, m.id(), got[:4], want.get((t, m.id()), [])[:4]))
+                        m.next()
+                qs.append({"q": null, "text": "", "obs": [{"kind": "flag", "path": "stored character ranges are the analyzer's"
+                                                           + (" - differs: %r" % (bad[:2],) if bad else ""),
+                                                           "value": not bad}]})
+            except Exception as ex:
+                qs.append({"q": null, "text": "", "obs": [{"kind": "error", "path": "stored character ranges",
+                                                           "err": type(ex).__name__, "msg": str(ex)[:200]}]})
+            run.count(1)
         for dn, (k, toks) in sorted(streams.items()):
             if rd.is_deleted(dn):
                 continue
